@@ -66,6 +66,10 @@ SPECIAL_TEXTS = [
     'a: 1\r\nb: x\r\n', 'a: 1\rb: x\r', '\ufeffa: 1\n', 'a: \xe9\xfc\n', 'k: \U0001F600\n', 'a: |\n  line1\n  line2\n', 'a: >-\r\n  folded\r\n  text\r\n',
     '- [unclosed\n', 'a: b: c\n', '\tbad: tab\n', 'a: &x 1\nb: *y\n', '--- 1\n--- 2\n', 'a: "\\q"\n', '', '# comment only\r\n',
     'x: 1\ny: !!python/object:os.system {}\n', 'a: \x85 b\n', '- 1\n- \xa0\n', '"\\ud800"', 'a: \u2028b\n',
+    # JSON surrogate-pair escapes, near the start and beyond the first blocks a stream reader hands to the scanner
+    '"\\ud83d\\ude00"', 'k: "a\\ud83d\\ude00b"\n', '["\\ud83d", "\\ude00", "\\ude00\\ud83d"]',
+    'a: 1\n' + '# filler line of some length ........................\n' * 400 + 'k: "x\\ud83d\\ude00y"\nl: ["\\ud83d\\ude00"]\n',
+    '{"a": "' + 'x' * 9000 + '", "\\ud83d\\ude00": ["\\ud83d\\ude00", "' + 'y' * 5000 + '\\ud83d\\ude00"]}',
 ]
 
 
